@@ -5,6 +5,7 @@ ONLY property theorems live here (helper lemmas: InToto/Proofs/Subst.lean).
 Model: InToto/Model/Subst.lean.  Spec: InToto/Spec/Subst.lean.
 -/
 import InToto.Proofs.Subst
+import InToto.Generated.Facts
 
 namespace InToto.C18
 open InToto InToto.Schema InToto.Subst InToto.SubstSpec InToto.SubstProofs
@@ -64,5 +65,9 @@ theorem examples :
     replace (pairsOf [(lit% "A", lit% "{B}"), (lit% "B", lit% "x")]) (lit% "{A}{B}{{A}}{C}{A") = lit% "{B}x{{B}}{C}{A"
     ∧ validName (lit% "a b") = false ∧ validName (lit% "a\n") = false ∧ validName (lit% "X_1-y") = true := by
   decide
+
+/-- fact regenerated from the source on every run: the parameter-name regular expression is the one
+    `validName` models -/
+theorem facts_name_regexp : (lit% "^[a-zA-Z0-9_-]+$") ∈ Generated.regexps := by decide
 
 end InToto.C18
